@@ -32,6 +32,7 @@ REPO = os.environ.get("VERIF_REPO", "/repo")
 sys.path.insert(0, HERE)
 
 import coqlit  # noqa: E402
+import fingerprint  # noqa: E402
 import obshash  # noqa: E402
 import translate  # noqa: E402
 
@@ -409,6 +410,13 @@ def run_check(prop_id, tier, seed):
         tie_breaks.append(("proof", pb, None))
     log(f"[{prop_id}] build: obligations={b.get('obligations')} proof_broken={len(b['proof_broken'])} translator_broken={len(b['translator_broken'])}")
 
+    # the hand-transcribed source functions moved?  then search harder (never a verdict by itself)
+    moved = fingerprint.changed(REPO, prop_id, getattr(prop, "SOURCE_FUNCS", []))
+    gen_tier = tier
+    if moved and tier == "quick" and os.environ.get("VERIF_NO_ESCALATE") != "1":
+        gen_tier = "thorough"
+        log(f"[{prop_id}] source of modelled functions changed ({', '.join(moved[:4])}...): escalating generators to thorough")
+
     # 3: corpus first, then fresh histories
     rng = random.Random(seed * 1000003 + sum(map(ord, prop_id)))
     corpus = []
@@ -417,7 +425,7 @@ def run_check(prop_id, tier, seed):
         for fn in sorted(os.listdir(cdir)):
             if fn.endswith(".json"):
                 corpus.append(json.load(open(os.path.join(cdir, fn))))
-    fresh = prop.gen_cases(rng, tier)
+    fresh = prop.gen_cases(rng, gen_tier)
     cases = corpus + fresh
     impl = run_impl_many(prop, cases)
     failures = []  # (case, failure)
@@ -444,8 +452,8 @@ def run_check(prop_id, tier, seed):
 
     # 4: targeted enumerator
     enum_n = 0
-    if hasattr(prop, "enumerate_cases") and (tie_breaks or tier == "thorough" or getattr(prop, "ENUM_ALWAYS", False)):
-        ecases = list(prop.enumerate_cases(tier, broken=bool(tie_breaks)))
+    if hasattr(prop, "enumerate_cases") and (tie_breaks or gen_tier == "thorough" or getattr(prop, "ENUM_ALWAYS", False)):
+        ecases = list(prop.enumerate_cases(gen_tier, broken=bool(tie_breaks)))
         eimpl = run_impl_many(prop, ecases)
         enum_n = len(ecases)
         for c, r in zip(ecases, eimpl):
@@ -527,6 +535,8 @@ def run_check(prop_id, tier, seed):
             "property_theorems": b.get("theorem_names", []),
             "print_assumptions": b.get("assumptions", {}),
             "translator_constructs": getattr(prop, "TABLE_CONSTRUCTS", []),
+            "modelled_source_functions": [f"{a}::{b}" for a, b in getattr(prop, "SOURCE_FUNCS", [])],
+            "modelled_source_functions_changed_since_baseline": moved,
             "evaluations": sum(len(c.get("_obs", [])) for c in cases + ecases),
             "histories": len(cases), "corpus_histories": len(corpus), "enumerated_cases": enum_n,
             "traces_validated_against_impl": len(model_cases),
